@@ -60,7 +60,7 @@ compression, whatever the threshold — `UnpackBytes` accepts and decodes to the
 theorem roundtrip_oneshot (v : Ver) (gz : GzOracle) (p p' : Packet) (thr : Int) (bs : Bytes) (codec : UInt8)
     (hd : InDomain v p) (hs : gz.Sound) (h : pack v gz p thr = .ok (bs, p')) :
     ∃ q, unpackBytes v gz codec bs = .ok q ∧ Equiv v p q := by
-  obtain ⟨ht, hcmd, hsig, hgz, hmdv⟩ := hd
+  obtain ⟨ht, hcmd, hsig, _, hmdv⟩ := hd
   obtain ⟨hpre, _, hlen, hbs⟩ := pack_ok_inv v gz p p' thr bs h
   have hmd : v = .v2 → Metadata.rawPairs (Metadata.marshalMap p.values 65535) = .ok (Metadata.sortPairs p.values) := by
     intro hv2
@@ -73,7 +73,7 @@ theorem roundtrip_oneshot (v : Ver) (gz : GzOracle) (p p' : Packet) (thr : Int) 
     have := hv' kv h
     simp [Metadata.validPair] at this
     exact ⟨this.1.2, this.2⟩
-  obtain ⟨hvalid, e1, e2, e3, e4, e5, e6, e7, e8, e9, e10⟩ := specOf_valid v gz p p' thr ht hgz hs hpre hlen hmd
+  obtain ⟨hvalid, e1, e2, e3, e4, e5, e6, e7, e8, e9, e10⟩ := specOf_valid v gz p p' thr ht hs hpre hlen hmd
   refine ⟨_, by rw [hbs]; exact C02.decode_accepts v gz codec _ _ _ hvalid, ?_⟩
   have hc : UInt32.ofNat (p.cmd.toNat % 256) = p.cmd := by
     rw [Nat.mod_eq_of_lt hcmd]; simp
@@ -84,6 +84,16 @@ theorem roundtrip_oneshot (v : Ver) (gz : GzOracle) (p p' : Packet) (thr : Int) 
   · cases hpt : p.type <;> simp_all
   · have hsw := sigWindow_id p.signature (hsig hpv)
     cases hpt : p.type <;> simp_all
+
+/-- … and for a RELAYED packet — one whose incoming gzip flag is set (as a decoder returns it for a
+compressed frame) but that is in the domain otherwise: `Pack` ignores the incoming flag (it describes
+another frame's body; `pack_flag_irrelevant`), so the round trip holds for it as well -/
+theorem roundtrip_oneshot_relayed (v : Ver) (gz : GzOracle) (p p' : Packet) (thr : Int) (bs : Bytes) (codec : UInt8)
+    (hd : InDomain v { p with gzip := false }) (hs : gz.Sound) (h : pack v gz p thr = .ok (bs, p')) :
+    ∃ q, unpackBytes v gz codec bs = .ok q ∧ Equiv v p q := by
+  have h' : pack v gz { p with gzip := false } thr = .ok (bs, p') := by rw [pack_flag_irrelevant]; exact h
+  obtain ⟨q, h1, h2⟩ := roundtrip_oneshot v gz _ p' thr bs codec hd hs h'
+  exact ⟨q, h1, h2⟩
 
 /-- `Pack` never panics provided the compressor does not -/
 theorem pack_no_panic (v : Ver) (gz : GzOracle) (p : Packet) (thr : Int)
@@ -202,7 +212,7 @@ and the denoted packet is the packet that was sent -/
 theorem pack_denotes (v : Ver) (gz : GzOracle) (p p' : Packet) (thr : Int) (bs : Bytes) (codec : UInt8)
     (hd : InDomain v p) (hs : gz.Sound) (h : pack v gz p thr = .ok (bs, p')) :
     ∃ f q, bs = Spec.encode v f ∧ Denotes v gz codec f q ∧ Equiv v p q := by
-  obtain ⟨ht, hcmd, hsig, hgz, hmdv⟩ := hd
+  obtain ⟨ht, hcmd, hsig, _, hmdv⟩ := hd
   obtain ⟨hpre, _, hlen, hbs⟩ := pack_ok_inv v gz p p' thr bs h
   have hmd : v = .v2 → Metadata.rawPairs (Metadata.marshalMap p.values 65535) = .ok (Metadata.sortPairs p.values) := by
     intro hv2
@@ -215,7 +225,7 @@ theorem pack_denotes (v : Ver) (gz : GzOracle) (p p' : Packet) (thr : Int) (bs :
     have := hv' kv h
     simp [Metadata.validPair] at this
     exact ⟨this.1.2, this.2⟩
-  obtain ⟨hvalid, e1, e2, e3, e4, e5, e6, e7, e8, e9, e10⟩ := specOf_valid v gz p p' thr ht hgz hs hpre hlen hmd
+  obtain ⟨hvalid, e1, e2, e3, e4, e5, e6, e7, e8, e9, e10⟩ := specOf_valid v gz p p' thr ht hs hpre hlen hmd
   refine ⟨specOf v p', packetOf (specOf v p') codec p.body (psOf v p.values), hbs, ⟨_, _, hvalid, rfl⟩, ?_⟩
   have hc : UInt32.ofNat (p.cmd.toNat % 256) = p.cmd := by
     rw [Nat.mod_eq_of_lt hcmd]; simp
